@@ -43,7 +43,8 @@ REQUIRED = dict(monitors=['alias:variance-equals-two-pass', 'alias:update-leaves
                           'mp:derived-trace-equals-single-process', 'mp:equals-single-process'],
                 classes=['rank-with-zero-samples', 'rank-with-one-sample', 'N<R', 'weights:zeros', 'weights:ties',
                          'values:vector', 'mp:R>=3', 'mp:derived', 'mp:binner-pass-through', 'mp:binner-flux',
-                         'alias:same-objects-two-accumulators', 'alias:one-buffer-overwritten'])
+                         'alias:same-objects-two-accumulators', 'alias:one-buffer-overwritten',
+                         'alias:several-accumulators-other-weights'])
 TOL = 1e-10
 
 
@@ -60,36 +61,76 @@ def pickled(x):
     return pickle.loads(pickle.dumps(x, protocol=pickle.HIGHEST_PROTOCOL))
 
 
+class Rendezvous:
+    """An in-process communicator: every rank runs in its own thread; allgather is a barrier collective that hands each
+    rank all ranks' values AFTER A PICKLE ROUND TRIP, in rank order.  It assumes nothing about how many exchanges a
+    call makes or what is exchanged -- only that all ranks make the same sequence of collectives (as MPI requires).
+    A rank that makes fewer or more collectives than the others shows as a broken barrier (reported, never a hang)."""
+
+    def __init__(self, nranks, ctx):
+        import threading
+        self.n = nranks
+        self.ctx = ctx
+        self.local = threading.local()
+        self.barrier = threading.Barrier(nranks)
+        self.slots = [None] * nranks
+        self.broken = False
+
+    def allgather(self, value):
+        import threading
+        r = self.local.rank
+        self.slots[r] = pickle.dumps(value, protocol=pickle.HIGHEST_PROTOCOL)
+        try:
+            self.barrier.wait(timeout=20)
+            out = [pickle.loads(x) for x in self.slots]
+            self.barrier.wait(timeout=20)
+        except threading.BrokenBarrierError:
+            self.broken = True
+            raise RuntimeError('collective mismatch between ranks')
+        if r == 0:
+            self.ctx.event('tap:allgather')
+        return out
+
+    def run(self, fns):
+        """fns[r]() is executed as rank r; returns (results, errors)."""
+        import threading
+        from taurex import mpi
+        res, err = [None] * self.n, [None] * self.n
+
+        def body(r):
+            self.local.rank = r
+            try:
+                res[r] = fns[r]()
+            except BaseException as e:      # reported to the caller
+                err[r] = e
+                self.barrier.abort()
+        orig = mpi.allgather
+        mpi.allgather = self.allgather
+        try:
+            ths = [threading.Thread(target=body, args=(r,)) for r in range(self.n)]
+            for t in ths:
+                t.start()
+            for t in ths:
+                t.join(60)
+        finally:
+            mpi.allgather = orig
+        return res, err
+
+
 def simulate_online(ctx, values, weights, assign, nranks):
     """values[i], weights[i] go to rank assign[i]; returns parallelVariance() as seen by every rank."""
     from taurex.util.math import OnlineVariance
-    from taurex import mpi
     objs = [OnlineVariance() for _ in range(nranks)]
     # the only caller (Optimizer.sample_parameters) hands over weight + 1e-300, never an exact zero
     weights = np.asarray(weights, dtype=float) + 1e-300
     for v, w, r in zip(values, weights, assign):
         objs[r].update(np.array(v, dtype=float) if np.ndim(v) else float(v), weight=float(w))
-    per = []
-    for o in objs:
-        mean = o.mean if o.mean is not None else np.nan
-        per.append((o.variance, mean, o.wcount, o.count))
-    outs = []
-    orig = mpi.allgather
-    try:
-        for r in range(nranks):
-            calls = {'n': 0}
-
-            def fake_allgather(value, r=r, calls=calls):
-                k = calls['n']
-                calls['n'] += 1
-                ctx.event('tap:allgather')
-                # every exchanged value goes through the serialisation mpi4py applies
-                return [pickled(per[q][k]) for q in range(nranks)]
-            mpi.allgather = fake_allgather
-            outs.append(objs[r].parallelVariance())
-            ctx.check('online:four-exchanges-per-call', calls['n'] == 4, n=calls['n'])
-    finally:
-        mpi.allgather = orig
+    rv = Rendezvous(nranks, ctx)
+    outs, errs = rv.run([o.parallelVariance for o in objs])
+    bad = [repr(e)[:200] for e in errs if e is not None]
+    ctx.check('online:every-rank-completes-the-collectives', not bad, errors=bad, nranks=nranks)
+    if bad:
+        return [np.nan for _ in range(nranks)]
     return outs
 
 
@@ -177,7 +218,6 @@ def wl_alias(ctx, rng):
     buffer is overwritten with each new sample (as a model that re-uses its output array does).  Both accumulators must
     give the two-pass variance, and no array handed to update() may have been modified."""
     from taurex.util.math import OnlineVariance
-    from taurex import mpi
     nranks = int(rng.choice([1, 2, 3]))
     n = int(rng.integers(2, 40))
     d = int(rng.integers(1, 6))
@@ -211,23 +251,33 @@ def wl_alias(ctx, rng):
         ctx.check('alias:update-leaves-its-argument-alone', True)
     mean, var = R_.weighted_mean_var(vals, w)
     scale = np.max(np.abs(mean)) ** 2 + np.max(np.abs(vals)) ** 2
-    orig = mpi.allgather
-    try:
-        for name, objs in (('first', A), ('second', B)):
-            per = [(o.variance, o.mean if o.mean is not None else np.nan, o.wcount, o.count) for o in objs]
-            for r in range(nranks):
-                calls = {'n': 0}
+    # a third accumulator per rank with OTHER weights and only part of the samples (one accumulator per posterior mode,
+    # say): all accumulators exist before the first parallelVariance() and are then combined one after the other
+    w3 = np.asarray(draw_weights(rng, n)[0], dtype=float) + 1e-300
+    keep = rng.random(n) < 0.7
+    if keep.sum() < 2:
+        keep[:] = True
+    C = [OnlineVariance() for _ in range(nranks)]
+    for i in range(n):
+        if keep[i]:
+            C[int(assign[i])].update(np.array(vals[i], dtype=np.float64), weight=float(w3[i]))
+    mean3, var3 = R_.weighted_mean_var(vals[keep], w3[keep])
+    order = [('first', A, var), ('second', B, var), ('other-weights', C, var3)]
+    if rng.random() < 0.5:
+        order = [order[2], order[0], order[1]]
+    rv = Rendezvous(nranks, ctx)
 
-                def fake_allgather(value, calls=calls, per=per):
-                    k = calls['n']
-                    calls['n'] += 1
-                    return [pickled(per[q][k]) for q in range(nranks)]
-                mpi.allgather = fake_allgather
-                out = objs[r].parallelVariance()
-                ctx.close('alias:variance-equals-two-pass', out, var, TOL, atol=1e-12 * scale, accumulator=name, rank=r,
-                          mode=mode, nranks=nranks, n=n)
-    finally:
-        mpi.allgather = orig
+    def as_rank(r):
+        return lambda: [objs[r].parallelVariance() for _, objs, _ in order]
+    outs, errs = rv.run([as_rank(r) for r in range(nranks)])
+    bad = [repr(e)[:200] for e in errs if e is not None]
+    ctx.check('online:every-rank-completes-the-collectives', not bad, errors=bad, nranks=nranks)
+    if not bad:
+        for r in range(nranks):
+            for (name, _, want), out in zip(order, outs[r]):
+                ctx.close('alias:variance-equals-two-pass', out, want, TOL, atol=1e-12 * scale, accumulator=name, rank=r,
+                          mode=mode, nranks=nranks, n=n, order=[o[0] for o in order])
+        ctx.observe('alias:several-accumulators-other-weights')
     ctx.sig('alias', mode, nranks, n, d, wcls)
 
 
